@@ -932,8 +932,29 @@ def rule_live_type(prog, rep, tier):
                             return True
                         if isinstance(atom, ast.Call) and isinstance(atom.func, ast.Attribute) and atom.func.attr == "isclass" and not p_:
                             return True
+                        # `getattr(a, "__name__", None) or str(a)`: a class always has a non-empty name, so the right operand is no class
+                        if not p_ and _name_read(atom):
+                            return True
+                return False
+
+            def _name_read(e):
+                """`<live>.__name__` / `getattr(<live>, "__name__"[, d])` (also `__qualname__`)"""
+                if isinstance(e, ast.Attribute) and e.attr in ("__name__", "__qualname__") and any(y in live for y in ast.walk(e.value)):
+                    return True
+                return isinstance(e, ast.Call) and isinstance(e.func, ast.Name) and e.func.id == "getattr" and len(e.args) >= 2 \
+                    and isinstance(e.args[1], ast.Constant) and e.args[1].value in ("__name__", "__qualname__") and any(y in live for y in ast.walk(e.args[0]))
+
+            def known_class(e):
+                for t, pol in expr_guards(e, stop=fi.node):
+                    for atom, p_ in facts(t, pol):
+                        if p_ and isinstance(atom, ast.Call) and getattr(atom.func, "id", getattr(atom.func, "attr", "")) in ("isinstance", "isclass") and atom.args \
+                                and any(y in live or (isinstance(y, ast.Attribute) and y.attr in ("annotation", "return_annotation")) for y in ast.walk(atom.args[0])):
+                            return True
                 return False
             formatted = [c for c in formatted if not excluded_for_classes(c)]
+            # (name clause) what is not a class may still answer `__name__`: a subscripted typing alias forwards it to its origin
+            # (`typing.List[int].__name__ == 'List'`, `Optional[int].__name__ == 'Optional'` on 3.10+), so the name is the type only of a class
+            named = [e for e in ast.walk(st.value) if _name_read(e) and not known_class(e)]
             by_name = any(isinstance(c, ast.Call) and getattr(c.func, "id", getattr(c.func, "attr", "")) == "formatannotation" for c in ast.walk(st.value))
             inst = "%s: %s" % (prog.owner_name(fi), src(st, 60))
             if formatted and not by_name:
@@ -941,8 +962,14 @@ def rule_live_type(prog, rep, tier):
                     "LIVE-TYPE", prog.owner_name(fi), "annotation-object-formatted",
                     "%s formats the live annotation object into the IR's type: for a class this is \"<class 'int'>\", which no emitter can parse as a type - "
                     "gen fails for every annotated function or method" % src(formatted[0], 50), loc(prog, formatted[0])))
+            elif named and not by_name:
+                rep.violation(Finding(
+                    "LIVE-TYPE", prog.owner_name(fi), "name-of-a-non-class",
+                    "%s is written into the IR's type without a test that the annotation is a class: a subscripted typing alias answers the name of its origin "
+                    "(`typing.List[int].__name__` is 'List', `Optional[int]` gives 'Optional'), so the generated definition loses the element types" % src(named[0], 50),
+                    loc(prog, named[0])))
             else:
-                rep.holds("LIVE-TYPE", inst, loc(prog, st), "a class is written by its name")
+                rep.holds("LIVE-TYPE", inst, loc(prog, st), "a class is written by its name, anything else as `str` writes it")
     if n == 0:
         raise AnalysisError("LIVE-TYPE: no assignment of a live annotation to 'typ' found in the package")
 
